@@ -21,14 +21,15 @@ import (
 type entry struct {
 	Has      bool     `json:"has"`
 	Ver      int      `json:"version"`
-	At       int64    `json:"fetched_at"`           // virtual second at which the upstream produced the answer
-	TTLs     []uint32 `json:"ttls"`                 // TTLs of ALL records of that response, in answer order (CNAMEs, the RRSet, unrelated extras)
-	Own      []uint32 `json:"rrset_ttls,omitempty"` // of the records the lookup returns (the RRSet at the end of the CNAME chain)
-	CN       []uint32 `json:"cname_ttls,omitempty"` // of the CNAME records of the chain
-	Ex       []uint32 `json:"extra_ttls,omitempty"` // of records owned by an unrelated name
-	End      string   `json:"data_from,omitempty"`  // name at the end of the CNAME chain when the answer was fetched
-	Empty    bool     `json:"empty,omitempty"`      // no record of the asked type (the response may still carry CNAMEs / extras)
-	Certain  bool     `json:"certain"`              // false: the cache is smaller than the working set, the entry may be gone
+	At       int64    `json:"fetched_at"`                    // virtual second at which the upstream produced the answer
+	TTLs     []uint32 `json:"ttls"`                          // TTLs of ALL records of that response, in answer order (CNAMEs, the RRSet, unrelated extras)
+	Own      []uint32 `json:"rrset_ttls,omitempty"`          // of the records the lookup returns (the RRSet at the end of the CNAME chain)
+	CN       []uint32 `json:"cname_ttls,omitempty"`          // of the CNAME records of the chain
+	Ex       []uint32 `json:"extra_ttls,omitempty"`          // of records owned by an unrelated name
+	Neg      []uint32 `json:"soa_ttl_and_minimum,omitempty"` // negative answer: TTL and MINIMUM of the SOA in the authority section
+	End      string   `json:"data_from,omitempty"`           // name at the end of the CNAME chain when the answer was fetched
+	Empty    bool     `json:"empty,omitempty"`               // no record of the asked type (the response may still carry CNAMEs / extras)
+	Certain  bool     `json:"certain"`                       // false: the cache is smaller than the working set, the entry may be gone
 	Why      string   `json:"why,omitempty"`
 	FailedBy string   `json:"failed_by,omitempty"` // after-failure: what the upstream answered
 	Jumped   bool     `json:"clock_stepped_during_fetch,omitempty"`
@@ -81,7 +82,8 @@ type seqZone struct {
 	Alias map[string]cname        `json:"cnames,omitempty"`        // alias -> target (a data name or an alias that points to a data name)
 	Extra map[string]*[3]*extraRR `json:"extra_records,omitempty"` // query name -> HTTPS, A, AAAA
 	// Neg: TTL and MINIMUM of the SOA record that the server puts into the authority section of a NOERROR response
-	// without answers (RFC 2308). It is a record of the response: the negative answer may not outlive it.
+	// without any record of the type asked (RFC 2308; the answer section is empty or holds only the CNAMEs that lead
+	// there). It is a record of the response: the negative answer may not outlive it.
 	Neg *[2]uint32 `json:"negative_answer_soa,omitempty"`
 }
 
@@ -112,7 +114,7 @@ func (z *seqZone) chain(name string) (ttls []uint32, end string) {
 
 // response: TTLs of the records the server puts in the answer to (name, qtype k), as the recursive resolver it
 // plays does: [extra] CNAME... RRSet-at-the-end... [extra].
-func (z *seqZone) response(name string, k int) (all, own, cn, ex []uint32, end string) {
+func (z *seqZone) response(name string, k int) (all, own, cn, ex, neg []uint32, end string) {
 	cn, end = z.chain(name)
 	if d := z.Data[end]; d != nil {
 		own = d[k].TTLs
@@ -131,12 +133,13 @@ func (z *seqZone) response(name string, k int) (all, own, cn, ex []uint32, end s
 	if e != nil && !e.Before {
 		all = append(all, e.TTL)
 	}
-	if len(all) == 0 && z.Neg != nil {
-		// an empty answer section: the authority section carries the SOA
-		ex = []uint32{z.Neg[0], z.Neg[1]}
-		all = append(all, ex...)
+	if len(own) == 0 && z.Neg != nil {
+		// no record of the type asked (an empty answer section, or only the CNAMEs that lead to a name without such
+		// a record: RFC 2308 section 2.2): the authority section carries the SOA
+		neg = []uint32{z.Neg[0], z.Neg[1]}
+		all = append(all, neg...)
 	}
-	return all, own, cn, ex, end
+	return all, own, cn, ex, neg, end
 }
 
 func (z *seqZone) install(srv *dohfake.Server, v int) {
@@ -618,7 +621,7 @@ func forcedBy(en *entry, age int64) string {
 	switch {
 	case len(en.CN) > 0 && age >= int64(minTTL(en.CN)):
 		return "cname"
-	case len(en.Ex) > 0 && len(en.TTLs) == len(en.Ex) && len(en.Own) == 0 && len(en.CN) == 0 && len(en.Ex) == 2 && age >= int64(minTTL(en.Ex)):
+	case len(en.Neg) > 0 && age >= int64(minTTL(en.Neg)):
 		return "authority-soa"
 	case len(en.Ex) > 0 && age >= int64(minTTL(en.Ex)):
 		return "extra-record"
@@ -843,8 +846,8 @@ func (h *seqHist) resolve(op *seqOp) (stop bool) {
 		if en.Why == "after-failure" && strings.HasPrefix(en.FailedBy, "rcode") {
 			h.counts["seq_refetched_after_rcode_failure"]++
 		}
-		all, own, cn, ex, end := zone.response(op.Name, k)
-		*en = entry{Has: true, Ver: h.ver, At: now, TTLs: all, Own: own, CN: cn, Ex: ex, End: end, Empty: len(own) == 0, Certain: h.size >= 16,
+		all, own, cn, ex, neg, end := zone.response(op.Name, k)
+		*en = entry{Has: true, Ver: h.ver, At: now, TTLs: all, Own: own, CN: cn, Ex: ex, Neg: neg, End: end, Empty: len(own) == 0, Certain: h.size >= 16,
 			Jumped: op.JumpAt > 0 && sent >= op.JumpAt}
 		want[k] = h.ver
 		if en.Empty {
